@@ -67,6 +67,7 @@ var kindTable = map[string]attr{
 	"Elided":     {"elided", false, false, "none"},
 	"SymSig":     {"text", true, true, "none"},
 	"SymPlain":   {"text", true, false, "none"},
+	"SymParen1":  {"text", true, false, "none"},
 	"NoParen":    {"text", false, false, "none"},
 	"LocNoPc":    {"text", false, false, "none"},
 	"LocPc":      {"text", false, false, "ok"},
@@ -333,14 +334,16 @@ var (
 		"[signal SIGSEGV: segmentation violation code=0x1 addr=0x0 pc=0x48f2a5]", "... 55 frames elided ...",
 		"exit status 2", "runtime stack:", "fatal error: all goroutines are asleep - deadlock!", "rax    0x0",
 		"panic: user said: sentinel 1234, goroutine 5 [running]: created by x pc=0x10 !", " goroutine 1 [running]:",
-		"\tgoroutine running", "rip    0x48f2a5", "-----", " ", "\t", "panic: oops [recovered]"}
+		"\tgoroutine running", "rip    0x48f2a5", "-----", " ", "\t", "panic: oops [recovered]", ".(", "x.(", "runtime.(", "x", ".", ")", "\""}
 	textBlock = []string{"panic: runtime error: index out of range", "...additional frames elided...", "exit status 2",
 		"runtime stack:", "rax    0x0", " goroutine 1 [running]:", " sentinel 12", " created by x", " ", "\t",
-		"\t/home/user/inlined.go:85", "\t/tmp/secret token=abc/y.go:85 +0x1d", "\t/x/pc=1/y.go:3"}
+		"\t/home/user/inlined.go:85", "\t/tmp/secret token=abc/y.go:85 +0x1d", "\t/x/pc=1/y.go:3", ".(", "x.(", "runtime.(", "x", ".", ")"}
 	hdrRun   = []string{"goroutine 1 [running]:", "goroutine 18 gp=0xc000102700 m=3 mp=0xc000080008 [running]:", "goroutine 4242 [running]:"}
 	hdrOther = []string{"goroutine 2 [chan receive]:", "goroutine 3 gp=0xc000007880 m=nil [GC worker (idle), 2 minutes]:",
 		"goroutine 17 [select, locked to thread]:", "goroutine 0 gp=0x56ec60 m=0 mp=0x56f7a0 [idle]:", "goroutine 5 [runnable]:", "goroutine 9 [syscall]:"}
-	created    = []string{"created by main.main in goroutine 1", "created by net/http.(*Server).Serve in goroutine 33", "created by x"}
+	created = []string{"created by main.main in goroutine 1", "created by net/http.(*Server).Serve in goroutine 33", "created by x"}
+	// symbol lines that BEGIN with "(": the symbol is empty
+	symParen1  = []string{"(0x1, 0x2)", "()", "(", "(*T).m(0xc000010000)", "((", "(.(", "(goroutine 1 [running]:", "(...)"}
 	elidedPool = []string{"...55 frames elided...", "...313 frames elided...", "...1 frames elided..."}
 	sentBad    = []string{"sentinel zz", "sentinel ", "sentinel -1", "sentinel g00d"}
 	sentZero   = []string{"sentinel 0", "sentinel 000"}
@@ -382,13 +385,14 @@ func concretize(kinds []string, variant int, rng *rand.Rand, vt *valueTable, pla
 	initMarkers()
 	child := crashmonitor.VSentinel()
 	delta := uint64(0)
+	firstSent := ""
 	for _, k := range kinds {
 		if k == "SentOk1" {
-			delta = delta1
+			delta, firstSent = delta1, k
 			break
 		}
 		if k == "SentOk2" {
-			delta = delta2
+			delta, firstSent = delta2, k
 			break
 		}
 	}
@@ -418,9 +422,18 @@ func concretize(kinds []string, variant int, rng *rand.Rand, vt *valueTable, pla
 		var ln string
 		switch k {
 		case "SentOk1", "SentOk2":
-			d := delta1
-			if k == "SentOk2" {
-				d = delta2
+			// the first sentinel kind of the report carries the parent's
+			// sentinel; the other kind is a DIFFERENT well-formed value: close
+			// to it (a rebased PC would still fall into the same function) or
+			// far away
+			d := delta
+			if k != firstSent {
+				near := []uint64{1, 2, ^uint64(0), 0x10, delta1 + delta2}
+				if variant == 0 {
+					d += near[0]
+				} else {
+					d += near[rng.Intn(len(near))]
+				}
 			}
 			switch {
 			case variant == 0 || rng.Intn(3) == 0:
@@ -451,6 +464,8 @@ func concretize(kinds []string, variant int, rng *rand.Rand, vt *valueTable, pla
 			}
 		case "SymPlain":
 			ln = pick(symsPlain) + "(" + pick(argsPool) + ")"
+		case "SymParen1":
+			ln = pick(symParen1)
 		case "NoParen", "LocNoPc":
 			if phase == 1 {
 				ln = pick(textBlock)
@@ -531,7 +546,7 @@ func detail(o outcome) rt.M {
 func randomKinds(rng *rand.Rand) []string {
 	var ks []string
 	add := func(k ...string) { ks = append(ks, k...) }
-	all := []string{"SentOk1", "SentOk2", "SentZero", "SentBad", "HdrRun", "HdrOther", "Blank", "Created", "Elided", "SymSig", "SymPlain",
+	all := []string{"SentOk1", "SentOk2", "SentZero", "SentBad", "HdrRun", "HdrOther", "Blank", "Created", "Elided", "SymSig", "SymPlain", "SymParen1",
 		"NoParen", "LocNoPc", "LocPc", "LocParenPc", "LocPathPc", "LocHuge", "LocBad"}
 	pre := []string{"NoParen", "NoParen", "Blank", "HdrOther", "SymPlain", "LocPc", "LocNoPc", "SymSig", "LocPathPc", "Created", "LocBad", "LocHuge"}
 	entries := func(n int) {
@@ -539,6 +554,8 @@ func randomKinds(rng *rand.Rand) []string {
 			switch r := rng.Intn(100); {
 			case r < 15:
 				add("SymSig")
+			case r < 22:
+				add("SymParen1")
 			default:
 				add("SymPlain")
 			}
@@ -586,6 +603,13 @@ func randomKinds(rng *rand.Rand) []string {
 		add([]string{"HdrOther", "HdrRun"}[rng.Intn(2)])
 		entries(rng.Intn(4))
 		add("Blank")
+	}
+	if rng.Intn(3) == 0 && len(ks) > 1 { // later sentinel lines: in the message, between goroutines, inside or after the block
+		for n := 1 + rng.Intn(2); n > 0; n-- {
+			p := 1 + rng.Intn(len(ks))
+			rep := []string{"SentOk1", "SentOk2", "SentOk2", "SentOk2", "SentZero", "SentBad"}[rng.Intn(6)]
+			ks = append(ks[:p], append([]string{rep}, ks[p:]...)...)
+		}
 	}
 	if rng.Intn(3) == 0 { // disturb: insert, delete or replace one line
 		switch p := rng.Intn(len(ks) + 1); rng.Intn(3) {
@@ -832,19 +856,16 @@ func classify(text string, vt *valueTable) (attrs []attr, vid []int, cleanSentin
 	child := crashmonitor.VSentinel()
 	// the sentinel used for relocation: the first well-formed non-zero one
 	var first uint64
-	nsent := 0
-	for _, ln := range lines {
-		if rest, ok := strings.CutPrefix(ln, "sentinel "); ok {
-			nsent++
-			if reSentVal.MatchString(rest) && first == 0 {
-				first, _ = strconv.ParseUint(rest, 16, 64)
-				cleanSentinel = first != 0
-			} else {
-				cleanSentinel = false
+	for i, ln := range lines {
+		if rest, ok := strings.CutPrefix(ln, "sentinel "); ok && reSentVal.MatchString(rest) {
+			if first, _ = strconv.ParseUint(rest, 16, 64); first != 0 {
+				// the parent's sentinel is the first line of the report: only then is
+				// it certain how the PCs must be relocated
+				cleanSentinel = i == 0
+				break
 			}
 		}
 	}
-	cleanSentinel = cleanSentinel && nsent == 1
 	for _, ln := range lines {
 		a := attr{S: "text", PC: "none"}
 		id := 0
@@ -936,7 +957,11 @@ func mutateLines(text string, rng *rand.Rand) string {
 	n := 1 + rng.Intn(3)
 	for ; n > 0 && len(lines) > 1; n-- {
 		p := rng.Intn(len(lines))
-		switch rng.Intn(9) {
+		switch rng.Intn(10) {
+		case 9: // a symbol line loses its symbol: it now begins with "("
+			if k := strings.Index(lines[p], "("); k > 0 && !strings.HasPrefix(lines[p], "\t") && !strings.HasPrefix(lines[p], "goroutine") {
+				lines[p] = lines[p][k:]
+			}
 		case 0: // delete
 			lines = append(lines[:p], lines[p+1:]...)
 		case 1: // duplicate
@@ -952,7 +977,11 @@ func mutateLines(text string, rng *rand.Rand) string {
 			}
 		case 4: // insert a filler line
 			f := append(append([]string{}, textAny...), "", "goroutine 77 [running]:", "goroutine 78 [sleep]:", "created by x",
-				"sentinel 1234", "runtime.sigpanic()", "main.f(0x1)", "\t/x/y.go:1 +0x1 fp=0x1 sp=0x1 pc=0x401000")
+				"sentinel 1234", "runtime.sigpanic()", "main.f(0x1)", "\t/x/y.go:1 +0x1 fp=0x1 sp=0x1 pc=0x401000",
+				"(", "()", "(0x1, 0x2)", "(*T).m(0x1)", ".(", "x.(", "x", "((",
+				fmt.Sprintf("sentinel %x", crashmonitor.VSentinel()+1), fmt.Sprintf("sentinel %x", crashmonitor.VSentinel()+2),
+				fmt.Sprintf("sentinel %x", crashmonitor.VSentinel()-1), fmt.Sprintf("sentinel %x", crashmonitor.VSentinel()),
+				fmt.Sprintf("sentinel %x", crashmonitor.VSentinel()+0x10), "sentinel 0", "sentinel zz")
 			lines = append(lines[:p], append([]string{f[rng.Intn(len(f))]}, lines[p:]...)...)
 		case 5: // put " pc=" or other meaningful words into the line's path / text
 			w := []string{" pc=", " pc=0x12 ", "(", "goroutine ", " [running]:", "sentinel ", "created by ", "."}[rng.Intn(8)]
